@@ -82,12 +82,15 @@ type AtStmt struct {
 }
 
 type ContractSet struct {
+	PkgInv map[string][]*Clause // package path -> invariants of package-level state assumed at entry
 	ByKey map[string]*Contract
 	Order []string
 	Errs  []string
 }
 
-func NewContractSet() *ContractSet { return &ContractSet{ByKey: map[string]*Contract{}} }
+func NewContractSet() *ContractSet {
+	return &ContractSet{ByKey: map[string]*Contract{}, PkgInv: map[string][]*Clause{}}
+}
 
 func splitTopLevel(s string, sep rune) []string {
 	var out []string
@@ -204,6 +207,12 @@ func (cs *ContractSet) ParseFile(path string, pkgPath string) {
 			cs.Order = append(cs.Order, key)
 			continue
 		}
+		if kw == "pkginv" {
+			if c := mkClause(rest); c != nil {
+				cs.PkgInv[pkgPath] = append(cs.PkgInv[pkgPath], c)
+			}
+			continue
+		}
 		if cur == nil {
 			fail("clause outside of a func block: %s", line)
 			continue
@@ -287,6 +296,9 @@ func (cs *ContractSet) ParseFile(path string, pkgPath string) {
 			case len(pt) == 2 && pt[0] == "store":
 				as.PointKind = "store"
 				as.Ordinal, _ = strconv.Atoi(pt[1])
+			case len(pt) == 2 && pt[0] == "go":
+				as.PointKind = "go"
+				as.Ordinal, _ = strconv.Atoi(pt[1])
 			case len(pt) == 2 && pt[0] == "return":
 				as.PointKind = "return"
 				if pt[1] == "*" {
@@ -315,6 +327,15 @@ func (cs *ContractSet) ParseFile(path string, pkgPath string) {
 				if as.C != nil {
 					as.C.Label = label
 				}
+			} else if strings.HasPrefix(stmt, "set ") {
+				kv := strings.SplitN(strings.TrimPrefix(stmt, "set "), ":=", 2)
+				if len(kv) != 2 {
+					fail("set needs name := expr")
+					continue
+				}
+				as.Kind = "set"
+				as.Name = strings.TrimSpace(kv[0])
+				as.C = mkClause(strings.TrimSpace(kv[1]))
 			} else if strings.HasPrefix(stmt, "mark ") {
 				as.Kind = "mark"
 				as.Name = strings.TrimSpace(strings.TrimPrefix(stmt, "mark "))
